@@ -341,7 +341,7 @@ Definition crinv (cfg : config) (w : world) : Prop :=
   match cret (wc w) with
   | None => copen (wc w) = true -> same_maps cfg (cmapq (wc w)) (cmapb (wc w))
   | Some ROk => cpc (wc w) = CDone ROk /\ (copen (wc w) = true -> same_maps cfg (cmapq (wc w)) (cmapb (wc w)))
-  | Some _ => cmapq (wc w) = None /\ cmapb (wc w) = None
+  | Some _ => cmapq (wc w) = None /\ cmapb (wc w) = None /\ cdup (wc w) = false /\ (exists r, cpc (wc w) = CDone r)
   end.
 
 Definition srinv (w : world) : Prop :=
@@ -349,8 +349,7 @@ Definition srinv (w : world) : Prop :=
   match sret (ws w) with
   | None => True
   | Some ROk => spc (ws w) = SDone ROk
-  | Some (RErr ETimeout) => True
-  | Some (RErr e) => spc (ws w) = SDone (RErr e) /\ smapq (ws w) = None /\ smapb (ws w) = None
+  | Some (RErr e) => (exists r, spc (ws w) = SDone r) /\ smapq (ws w) = None /\ smapb (ws w) = None /\ sdup (ws w) = false
   | Some (RPanic y) => spc (ws w) = SDone (RPanic y) /\ smapq (ws w) = None /\ smapb (ws w) = None
   end.
 
@@ -375,7 +374,7 @@ Proof.
   - unfold cinv. cbn. destruct (client_rejects cfg); cbn; auto.
   - unfold sinv. cbn. auto.
   - auto.
-  - unfold crinv, same_maps. cbn. destruct (client_rejects cfg); cbn; auto.
+  - unfold crinv, same_maps. cbn. destruct (client_rejects cfg); cbn; eauto 6.
   - unfold srinv. cbn. auto.
 Qed.
 
@@ -394,7 +393,7 @@ Proof. intros H. unfold negotiated, client_version. rewrite H. reflexivity. Qed.
 Lemma negotiated_memfd cfg : mt cfg = MMemfd -> negotiated cfg = 3.
 Proof. intros H. unfold negotiated, client_version. rewrite H. reflexivity. Qed.
 
-Ltac wproj := cbn [wc ws c2s s2c fs c_out c_cons s_out s_cons cpc cver cmapq cmapb cdup cret copen cstall
+Ltac wproj := cbn [wc ws c2s s2c fs c_out c_cons s_out s_cons cpc cver cmapq cmapb cdup cret copen cstall ctimed stimed
                    spc sver smapq smapb sdup sret sopen sstall
                    co_pc co_ver co_inbox co_cons co_write so_pc so_ver so_mapq so_mapb so_inbox so_cons so_write] in *.
 
@@ -402,7 +401,7 @@ Ltac wproj := cbn [wc ws c2s s2c fs c_out c_cons s_out s_cons cpc cver cmapq cma
 Definition c_apply (w : world) (o : cstep_out) : world :=
   let c := wc w in
   {| wc := {| cpc := co_pc o; cver := co_ver o; cmapq := cmapq c; cmapb := cmapb c; cdup := cdup c;
-              cret := cret c; copen := copen c; cstall := cstall c |};
+              cret := cret c; copen := copen c; cstall := cstall c; ctimed := ctimed c |};
      ws := ws w; c2s := c2s w ++ co_write o; s2c := co_inbox o; fs := fs w;
      c_out := c_out w ++ co_write o; c_cons := c_cons w ++ co_cons o;
      s_out := s_out w; s_cons := s_cons w |}.
@@ -419,7 +418,9 @@ Proof.
   - rewrite W2, app_assoc. reflexivity.
   - rewrite W4, Hsplit, app_assoc. reflexivity.
   - unfold crinv in *. wproj. destruct (cret (wc w)) as [[| |]|]; auto.
-    destruct Icr as [E _]. rewrite E in Hpc. contradiction.
+    + destruct Icr as [E _]. rewrite E in Hpc. contradiction.
+    + destruct Icr as (_ & _ & _ & r & E). rewrite E in Hpc. contradiction.
+    + destruct Icr as (_ & _ & _ & r & E). rewrite E in Hpc. contradiction.
 Qed.
 
 Lemma c_apply_fail cfg w ver inbox cons e :
@@ -442,7 +443,7 @@ Proof.
   destruct (cpc (wc w)) eqn:Epc.
   - (* CStart *)
     destruct Hc as [Ho Hcons]. cbn [cstep].
-    destruct (mt cfg) eqn:Hm; unfold cwrite; destruct (sopen (ws w)).
+    destruct (mt cfg) eqn:Hm; unfold cwrite; destruct (sopen (ws w) && negb (ctimed (wc w))).
     + apply (c_apply_inv cfg w); wproj; auto; try (rewrite Epc; exact Logic.I).
       * rewrite Ho. cbn [app]. unfold cscript. rewrite Hm. exists []. reflexivity.
       * unfold cinv, c_apply. wproj. split; [rewrite negotiated_file by assumption; reflexivity|congruence].
@@ -454,10 +455,10 @@ Proof.
   - (* CWaitVer *)
     destruct Hc as (Hm & Hlo & Hcons).
     destruct (inbox_cases _ _ _ _ H3 H4) as [E | (f & rest & E & Hn)].
-    + rewrite E. cbn [cstep read_frame]. destruct (sopen (ws w)); [assumption|].
+    + rewrite E. cbn [cstep read_frame]. destruct (sopen (ws w) && negb (ctimed (wc w))); [assumption|].
       apply (c_apply_fail cfg w (cver (wc w)) [] [] EEOF); auto. rewrite Epc; exact Logic.I.
     + rewrite Hcons in Hn. unfold sscript in Hn. rewrite Hm in Hn. cbn in Hn. injection Hn as <-.
-      rewrite E, cstep_waitver by assumption. unfold cwrite. destruct (sopen (ws w)).
+      rewrite E, cstep_waitver by assumption. unfold cwrite. destruct (sopen (ws w) && negb (ctimed (wc w))).
       * apply (c_apply_inv cfg w); wproj; auto; try (rewrite Epc; exact Logic.I).
         -- apply prefix_snoc; [assumption|]. rewrite Hlo. unfold cscript. rewrite Hm. reflexivity.
         -- unfold cinv, c_apply. wproj. rewrite Hcons, app_length, Hlo. auto.
@@ -465,10 +466,10 @@ Proof.
   - (* CWaitAckReady *)
     destruct Hc as (Hm & Hlo & Hlc & Hv).
     destruct (inbox_cases _ _ _ _ H3 H4) as [E | (f & rest & E & Hn)].
-    + rewrite E. cbn [cstep read_frame]. destruct (sopen (ws w)); [assumption|].
+    + rewrite E. cbn [cstep read_frame]. destruct (sopen (ws w) && negb (ctimed (wc w))); [assumption|].
       apply (c_apply_fail cfg w (cver (wc w)) [] [] EEOF); auto. rewrite Epc; exact Logic.I.
     + rewrite Hlc in Hn. unfold sscript in Hn. rewrite Hm in Hn. cbn in Hn. injection Hn as <-.
-      rewrite E, Hv, cstep_waitackready. unfold cwrite. destruct (sopen (ws w)).
+      rewrite E, Hv, cstep_waitackready. unfold cwrite. destruct (sopen (ws w) && negb (ctimed (wc w))).
       * apply (c_apply_inv cfg w); wproj; auto; try (rewrite Epc; exact Logic.I).
         -- apply prefix_snoc; [assumption|]. rewrite Hlo. unfold cscript. rewrite Hm. reflexivity.
         -- unfold cinv, c_apply. wproj. rewrite !app_length, Hlo, Hlc. auto.
@@ -476,7 +477,7 @@ Proof.
   - (* CWaitAckShare *)
     destruct Hc as (Hm & Hlo & Hlc & Hv).
     destruct (inbox_cases _ _ _ _ H3 H4) as [E | (f & rest & E & Hn)].
-    + rewrite E. cbn [cstep read_frame]. destruct (sopen (ws w)); [assumption|].
+    + rewrite E. cbn [cstep read_frame]. destruct (sopen (ws w) && negb (ctimed (wc w))); [assumption|].
       apply (c_apply_fail cfg w (cver (wc w)) [] [] EEOF); auto. rewrite Epc; exact Logic.I.
     + rewrite Hlc in Hn. unfold sscript in Hn. rewrite Hm in Hn. cbn in Hn. injection Hn as <-.
       rewrite E, Hv, cstep_waitackshare.
@@ -492,7 +493,7 @@ Definition s_apply (w : world) (o : sstep_out) : world :=
   let s := ws w in
   {| wc := wc w;
      ws := {| spc := so_pc o; sver := so_ver o; smapq := so_mapq o; smapb := so_mapb o; sdup := sdup s;
-              sret := sret s; sopen := sopen s; sstall := sstall s |};
+              sret := sret s; sopen := sopen s; sstall := sstall s; stimed := stimed s |};
      c2s := so_inbox o; s2c := s2c w ++ so_write o; fs := fs w;
      c_out := c_out w; c_cons := c_cons w;
      s_out := s_out w ++ so_write o; s_cons := s_cons w ++ so_cons o |}.
@@ -514,7 +515,7 @@ Proof.
   - unfold srinv in *. wproj. destruct Isr as [_ Isr]. split; [assumption|].
     destruct (sret (ws w)) as [[|e|y]|]; auto.
     + rewrite Isr in Hpc. contradiction.
-    + destruct e; auto; destruct Isr as [E _]; rewrite E in Hpc; contradiction.
+    + destruct Isr as [[r E] _]. rewrite E in Hpc. contradiction.
     + destruct Isr as [E _]. rewrite E in Hpc. contradiction.
 Qed.
 
@@ -546,7 +547,7 @@ Proof.
     assert (Hnd : not_done (spc (ws w))) by (rewrite Epc; exact Logic.I).
     assert (Hl : (length (s_out w) <= 2)%nat) by (rewrite Hout; cbn; lia).
     destruct (inbox_cases _ _ _ _ H1 H2) as [E | (f & rest & E & Hn)].
-    + rewrite E. cbn [sstep read_frame]. destruct (copen (wc w)); [assumption|].
+    + rewrite E. cbn [sstep read_frame]. destruct (copen (wc w) && negb (stimed (ws w))); [assumption|].
       change (Inv cfg (s_apply w (sfail (sver (ws w)) None [] [] (RErr EEOF)))).
       apply s_apply_fail; auto.
     + rewrite Hcons in Hn. unfold cscript in Hn. destruct (mt cfg) eqn:Hm; cbn [nth_error length] in Hn; injection Hn as <-; rewrite E.
@@ -565,7 +566,7 @@ Proof.
            apply Hfs in Lq. apply Hfs in Lb. rewrite lookup_init_q in Lq by assumption.
            rewrite lookup_init_b in Lb by (try assumption; split; assumption).
            injection Lq as <-. injection Lb as <-. split; reflexivity.
-      * rewrite sstep_first_exch. destruct (copen (wc w)).
+      * rewrite sstep_first_exch. destruct (copen (wc w) && negb (stimed (ws w))).
         -- sfold w.
            apply s_apply_inv; wproj; auto.
            ++ rewrite Hout. cbn [app]. unfold sscript. rewrite Hm. eexists. reflexivity.
@@ -577,11 +578,11 @@ Proof.
     assert (Hnd : not_done (spc (ws w))) by (rewrite Epc; exact Logic.I).
     assert (Hl : (length (s_out w) <= 2)%nat) by lia.
     destruct (inbox_cases _ _ _ _ H1 H2) as [E | (f & rest & E & Hn)].
-    + rewrite E. cbn [sstep read_frame]. destruct (copen (wc w)); [assumption|].
+    + rewrite E. cbn [sstep read_frame]. destruct (copen (wc w) && negb (stimed (ws w))); [assumption|].
       change (Inv cfg (s_apply w (sfail (sver (ws w)) None [] [] (RErr EEOF)))).
       apply s_apply_fail; auto.
     + rewrite Hlc in Hn. unfold cscript in Hn. rewrite Hm in Hn. cbn [nth_error length] in Hn. injection Hn as <-.
-      rewrite E, Hv, sstep_meta_memfd by assumption. destruct (copen (wc w)).
+      rewrite E, Hv, sstep_meta_memfd by assumption. destruct (copen (wc w) && negb (stimed (ws w))).
       * sfold w.
         apply s_apply_inv; wproj; auto.
         -- apply prefix_snoc; [assumption|]. rewrite Hlo. unfold sscript. rewrite Hm. reflexivity.
@@ -593,11 +594,12 @@ Proof.
     assert (Hnd : not_done (spc (ws w))) by (rewrite Epc; exact Logic.I).
     assert (Hl : (length (s_out w) <= 2)%nat) by lia.
     destruct (inbox_cases _ _ _ _ H1 H2) as [E | (f & rest & E & Hn)].
-    + rewrite E. cbn [sstep]. destruct (copen (wc w)); [assumption|].
+    + rewrite E. cbn [sstep]. destruct (copen (wc w) && negb (stimed (ws w))); [assumption|].
       change (Inv cfg (s_apply w (sfail (sver (ws w)) None [] [] (RErr ENoOob)))).
       apply s_apply_fail; auto.
     + rewrite Hlc in Hn. unfold cscript in Hn. rewrite Hm in Hn. cbn [nth_error length] in Hn. injection Hn as <-.
-      rewrite E, Hv. cbn [sstep]. destruct (copen (wc w)).
+      rewrite E, Hv. cbn [sstep]. change (zlen [bobj cfg; qobj cfg] <? c_memfdCount) with false. cbv iota.
+      destruct (copen (wc w) && negb (stimed (ws w))).
       * sfold w.
         apply s_apply_inv; wproj; auto.
         -- apply prefix_snoc; [assumption|]. rewrite Hlo. unfold sscript. rewrite Hm. reflexivity.
@@ -615,42 +617,39 @@ Qed.
 Lemma lookup_unlink p m f o : lookup p (unlink m f) = Some o -> lookup p f = Some o.
 Proof. destruct m as [[p' o']|]; cbn; [apply lookup_remove|auto]. Qed.
 
-Lemma inv_c_return cfg w r :
-  Inv cfg w -> cret (wc w) = None -> (r = ROk -> cpc (wc w) = CDone ROk) -> Inv cfg (c_return w r).
+Lemma inv_c_return cfg w r r0 :
+  Inv cfg w -> cret (wc w) = None -> cpc (wc w) = CDone r0 -> (r = ROk -> r0 = ROk) -> Inv cfg (c_return w r).
 Proof.
-  intros I Hn Hr. destruct I as [W1 W2 W3 W4 Ic Is Ifs Icr Isr].
+  intros I Hn Hd Hr. destruct I as [W1 W2 W3 W4 Ic Is Ifs Icr Isr].
   unfold c_return. destruct r as [|e|y].
   - constructor; unfold set_c; wproj; auto.
-    unfold crinv in *. wproj. rewrite Hn in Icr. auto.
+    unfold crinv in *. wproj. rewrite Hn in Icr. rewrite Hd, (Hr eq_refl). auto.
   - constructor; wproj; auto.
     + intros p o H. apply lookup_unlink in H. apply lookup_unlink in H. auto.
-    + unfold crinv. wproj. auto.
+    + unfold crinv. wproj. eauto 6.
   - constructor; wproj; auto.
     + intros p o H. apply lookup_unlink in H. apply lookup_unlink in H. auto.
-    + unfold crinv. wproj. auto.
+    + unfold crinv. wproj. eauto 6.
 Qed.
 
-Lemma inv_s_return cfg w r :
-  Inv cfg w -> sret (ws w) = None -> (r = RErr ETimeout \/ spc (ws w) = SDone r) -> Inv cfg (s_return w r).
+Lemma inv_s_return cfg w r r0 :
+  Inv cfg w -> sret (ws w) = None -> spc (ws w) = SDone r0 -> (r = ROk -> r0 = ROk) ->
+  (forall y, r = RPanic y -> r0 = RPanic y) -> Inv cfg (s_return w r).
 Proof.
-  intros I Hn Hr. destruct I as [W1 W2 W3 W4 Ic Is Ifs Icr Isr].
+  intros I Hn Hd Hr Hp. destruct I as [W1 W2 W3 W4 Ic Is Ifs Icr Isr].
   unfold s_return. destruct r as [|e|y].
-  - destruct Hr as [Hr|Hr]; [discriminate|].
-    constructor; unfold set_s; wproj; auto.
+  - constructor; unfold set_s; wproj; auto.
     + unfold sinv in *. wproj. destruct (spc (ws w)) as [| | |[| |]]; auto.
       destruct Is as (A & B & C). split; [assumption|split; [assumption|]]. intros H1 _. apply C; auto.
-    + unfold srinv in *. wproj. destruct Isr as [A _]. split; assumption.
+    + unfold srinv in *. wproj. destruct Isr as [A _]. split; [assumption|]. rewrite Hd, (Hr eq_refl). reflexivity.
   - constructor; wproj; auto.
     + unfold sinv in *. wproj. destruct (spc (ws w)) as [| | |[| |]]; auto.
       destruct Is as (A & B & C). split; [assumption|split; [assumption|]]. intros _ [H|H]; discriminate.
     + intros p o H. apply lookup_unlink in H. apply lookup_unlink in H. auto.
-    + unfold srinv in *. wproj. split; [destruct (spc (ws w)); auto|].
-      destruct Hr as [Hr|Hr]; [injection Hr as ->; exact Logic.I|].
-      destruct e; auto.
-  - destruct Hr as [Hr|Hr]; [discriminate|].
-    constructor; unfold set_s; wproj; auto.
-    + unfold sinv in *. wproj. rewrite Hr in *. assumption.
-    + unfold srinv in *. wproj. split; [destruct (spc (ws w)); auto|auto].
+    + unfold srinv in *. wproj. split; [destruct (spc (ws w)); auto|]. eauto 6.
+  - constructor; unfold set_s; wproj; auto.
+    + unfold sinv in *. wproj. rewrite Hd in *. rewrite (Hp y eq_refl) in *. assumption.
+    + unfold srinv in *. wproj. split; [destruct (spc (ws w)); auto|]. rewrite Hd, (Hp y eq_refl). auto.
 Qed.
 
 Lemma inv_step cfg w l : good cfg -> Inv cfg w -> Inv cfg (step cfg w l).
@@ -660,25 +659,38 @@ Proof.
   - apply inv_LS; assumption.
   - unfold step. destruct (c_running (wc w)); [|assumption].
     destruct (cpc (wc w)) eqn:E; try assumption. destruct (cret (wc w)) eqn:E2; [assumption|].
-    apply inv_c_return; auto. intros ->. assumption.
+    apply (inv_c_return cfg w _ r); auto. destruct (ctimed (wc w)); [discriminate|auto].
   - unfold step. destruct (s_running (ws w)); [|assumption].
     destruct (spc (ws w)) eqn:E; try assumption. destruct (sret (ws w)) eqn:E2; [assumption|].
-    apply inv_s_return; auto.
+    apply (inv_s_return cfg w _ r); auto.
+    + destruct (stimed (ws w)); [destruct r; discriminate|auto].
+    + destruct (stimed (ws w)); [destruct r; intros y H; try discriminate; assumption|auto].
   - unfold step. destruct (c_running (wc w)); [|assumption].
-    destruct (cret (wc w)) eqn:E2; [assumption|]. apply inv_c_return; auto. discriminate.
+    destruct (cret (wc w)) eqn:E2; [assumption|]. destruct (cpc (wc w)) eqn:E.
+    5:{ apply (inv_c_return cfg w _ r); auto. discriminate. }
+    all: destruct I as [W1 W2 W3 W4 Ic Is Ifs Icr Isr]; constructor; unfold set_c; wproj; auto;
+      [unfold cinv in *; wproj; rewrite E in *; assumption | unfold crinv in *; wproj; rewrite E2 in *; assumption].
   - unfold step. destruct (s_running (ws w)); [|assumption].
-    destruct (sret (ws w)) eqn:E2; [assumption|]. apply inv_s_return; auto.
+    destruct (sret (ws w)) eqn:E2; [assumption|]. destruct (spc (ws w)) as [| | |r] eqn:E.
+    4:{ destruct r as [|e|y].
+        - apply (inv_s_return cfg w _ ROk); auto; try discriminate.
+        - apply (inv_s_return cfg w _ (RErr e)); auto; try discriminate.
+        - apply (inv_s_return cfg w _ (RPanic y)); auto; try discriminate. }
+    all: destruct I as [W1 W2 W3 W4 Ic Is Ifs Icr Isr]; constructor; unfold set_s; wproj; auto;
+      [unfold sinv in *; wproj; rewrite E in *; assumption | unfold srinv in *; wproj; rewrite E, E2 in *; assumption].
   - destruct I as [W1 W2 W3 W4 Ic Is Ifs Icr Isr]. constructor; unfold step, set_c; wproj; auto.
   - destruct I as [W1 W2 W3 W4 Ic Is Ifs Icr Isr]. constructor; unfold step, set_s; wproj; auto.
   - destruct I as [W1 W2 W3 W4 Ic Is Ifs Icr Isr]. constructor; unfold step, set_c; wproj; auto.
     unfold crinv in *. wproj. destruct (cret (wc w)) as [[| |]|]; auto; try discriminate.
-    destruct Icr as [A B]. split; [assumption|discriminate].
+    + destruct Icr as [A B]. split; [assumption|discriminate].
+    + destruct Icr as (A & B & C & D). auto.
+    + destruct Icr as (A & B & C & D). auto.
   - destruct I as [W1 W2 W3 W4 Ic Is Ifs Icr Isr]. constructor; unfold step, set_s; wproj; auto.
     + unfold sinv in *. wproj. destruct (spc (ws w)) as [| | |[| |]]; auto.
       destruct Is as (A & B & C). split; [assumption|split; [assumption|]]. discriminate.
     + unfold srinv in *. wproj. destruct Isr as [A B]. split; [destruct (spc (ws w)); auto|].
       destruct (sret (ws w)) as [[|e|y]|]; auto.
-      * destruct e; auto; destruct B as [B1 _]; auto.
+      * destruct B as (B1 & _). auto.
       * destruct B as [B1 _]. auto.
   - destruct I as [W1 W2 W3 W4 Ic Is Ifs Icr Isr]. constructor; unfold step; wproj; auto.
     intros p o H. apply lookup_remove in H. auto.
@@ -747,13 +759,16 @@ Proof. destruct r; reflexivity. Qed.
 Lemma cret_stable cfg w l r : cret (wc w) = Some r -> cret (wc (step cfg w l)) = Some r.
 Proof.
   intros H. destruct l; unfold step.
-  - destruct (c_running (wc w)); [|assumption]. destruct (cstep cfg (cpc (wc w)) (cver (wc w)) (s2c w) (sopen (ws w))); assumption.
-  - destruct (s_running (ws w)); [|assumption]. destruct (sstep (fs w) (spc (ws w)) (sver (ws w)) (c2s w) (copen (wc w))); assumption.
+  - destruct (c_running (wc w)); [|assumption].
+    destruct (cstep cfg (cpc (wc w)) (cver (wc w)) (s2c w) (sopen (ws w) && negb (ctimed (wc w)))); assumption.
+  - destruct (s_running (ws w)); [|assumption].
+    destruct (sstep (fs w) (spc (ws w)) (sver (ws w)) (c2s w) (copen (wc w) && negb (stimed (ws w)))); assumption.
   - destruct (c_running (wc w)); [|assumption]. destruct (cpc (wc w)); try assumption. rewrite H. assumption.
   - destruct (s_running (ws w)); [|assumption]. destruct (spc (ws w)); try assumption.
     destruct (sret (ws w)); [assumption|]. rewrite wc_s_return. assumption.
   - destruct (c_running (wc w)); [|assumption]. rewrite H. assumption.
-  - destruct (s_running (ws w)); [|assumption]. destruct (sret (ws w)); [assumption|]. rewrite wc_s_return. assumption.
+  - destruct (s_running (ws w)); [|assumption]. destruct (sret (ws w)); [assumption|].
+    destruct (spc (ws w)) as [| | |[| |]]; rewrite ?wc_s_return; assumption.
   - assumption.
   - assumption.
   - assumption.
@@ -764,12 +779,15 @@ Qed.
 Lemma sret_stable cfg w l r : sret (ws w) = Some r -> sret (ws (step cfg w l)) = Some r.
 Proof.
   intros H. destruct l; unfold step.
-  - destruct (c_running (wc w)); [|assumption]. destruct (cstep cfg (cpc (wc w)) (cver (wc w)) (s2c w) (sopen (ws w))); assumption.
-  - destruct (s_running (ws w)); [|assumption]. destruct (sstep (fs w) (spc (ws w)) (sver (ws w)) (c2s w) (copen (wc w))); assumption.
+  - destruct (c_running (wc w)); [|assumption].
+    destruct (cstep cfg (cpc (wc w)) (cver (wc w)) (s2c w) (sopen (ws w) && negb (ctimed (wc w)))); assumption.
+  - destruct (s_running (ws w)); [|assumption].
+    destruct (sstep (fs w) (spc (ws w)) (sver (ws w)) (c2s w) (copen (wc w) && negb (stimed (ws w)))); assumption.
   - destruct (c_running (wc w)); [|assumption]. destruct (cpc (wc w)); try assumption.
     destruct (cret (wc w)); [assumption|]. rewrite ws_c_return. assumption.
   - destruct (s_running (ws w)); [|assumption]. destruct (spc (ws w)); try assumption. rewrite H. assumption.
-  - destruct (c_running (wc w)); [|assumption]. destruct (cret (wc w)); [assumption|]. rewrite ws_c_return. assumption.
+  - destruct (c_running (wc w)); [|assumption]. destruct (cret (wc w)); [assumption|].
+    destruct (cpc (wc w)); rewrite ?ws_c_return; assumption.
   - destruct (s_running (ws w)); [|assumption]. rewrite H. assumption.
   - assumption.
   - assumption.
@@ -786,33 +804,108 @@ Proof. unfold run. induction sch as [|l sch IH]; intros w r H; cbn; [assumption|
 Lemma run_app cfg a b w : run cfg (a ++ b) w = run cfg b (run cfg a w).
 Proof. unfold run. apply fold_left_app. Qed.
 
-(* a running end has returned — success or error — at the latest when its timer event is taken *)
-Theorem returns_by_timer cfg pre post :
-  (c_running (wc (run cfg pre (init cfg))) = true -> cret (wc (run cfg (pre ++ LTimerC :: post) (init cfg))) <> None) /\
-  (s_running (ws (run cfg pre (init cfg))) = true -> sret (ws (run cfg (pre ++ LTimerS :: post) (init cfg))) <> None).
+(* once the socket is shut down every step of the goroutine ends it: reads return EOF or queued data whose
+   processing ends in a failing write or in the last step *)
+Ltac dm := match goal with |- context [match ?x with _ => _ end] =>
+  lazymatch x with
+  | context [match _ with _ => _ end] => fail
+  | _ => destruct x eqn:?
+  end end.
+
+Lemma cstep_cancelled cfg pc ver inbox : (match pc with CDone _ => False | _ => True end) ->
+  exists o r, cstep cfg pc ver inbox false = Some o /\ co_pc o = CDone r.
 Proof.
-  split; intros Hr; rewrite run_app; set (w := run cfg pre (init cfg)) in *;
-    change (LTimerC :: post) with ([LTimerC] ++ post); change (LTimerS :: post) with ([LTimerS] ++ post);
-    rewrite run_app.
-  - assert (exists r, cret (wc (run cfg [LTimerC] w)) = Some r) as [r Hs].
-    { cbn. rewrite Hr. destruct (cret (wc w)) eqn:E; [eauto|]. eexists. unfold c_return. wproj. reflexivity. }
+  intros H. destruct pc; try contradiction; unfold cstep, read_frame, cwrite, cfail;
+    repeat (first [progress cbv iota | dm]); do 2 eexists; split; reflexivity.
+Qed.
+Lemma sstep_cancelled f pc ver inbox : not_done pc ->
+  exists o r, sstep f pc ver inbox false = Some o /\ so_pc o = SDone r.
+Proof.
+  intros H. destruct pc; try contradiction; unfold sstep, handle_file, read_frame, sfail;
+    repeat (first [progress cbv iota | dm]); do 2 eexists; split; reflexivity.
+Qed.
+
+Lemma LC_cancelled cfg w : c_running (wc w) = true -> ctimed (wc w) = true ->
+  (match cpc (wc w) with CDone _ => False | _ => True end) ->
+  exists o r, step cfg w LC = c_apply w o /\ co_pc o = CDone r.
+Proof.
+  intros Hr Ht Hp. unfold step. rewrite Hr, Ht. cbn [negb]. rewrite andb_false_r.
+  destruct (cstep_cancelled cfg (cpc (wc w)) (cver (wc w)) (s2c w) Hp) as (o & r & -> & Ho).
+  exists o, r. split; [unfold c_apply; rewrite Ht; reflexivity|assumption].
+Qed.
+Lemma LS_cancelled cfg w : s_running (ws w) = true -> stimed (ws w) = true -> not_done (spc (ws w)) ->
+  exists o r, step cfg w LS = s_apply w o /\ so_pc o = SDone r.
+Proof.
+  intros Hr Ht Hp. unfold step. rewrite Hr, Ht. cbn [negb]. rewrite andb_false_r.
+  destruct (sstep_cancelled (fs w) (spc (ws w)) (sver (ws w)) (c2s w) Hp) as (o & r & -> & Ho).
+  exists o, r. split; [unfold s_apply; rewrite Ht; reflexivity|assumption].
+Qed.
+Lemma LRetC_done cfg w r : c_running (wc w) = true -> cret (wc w) = None -> cpc (wc w) = CDone r ->
+  exists r', cret (wc (step cfg w LRetC)) = Some r'.
+Proof.
+  intros Hr E Ep. unfold step. rewrite Hr, Ep, E. destruct (ctimed (wc w)); [|destruct r]; unfold c_return, set_c; wproj; eauto.
+Qed.
+Lemma LRetS_done cfg w r : s_running (ws w) = true -> sret (ws w) = None -> spc (ws w) = SDone r ->
+  exists r', sret (ws (step cfg w LRetS)) = Some r'.
+Proof.
+  intros Hr E Ep. unfold step. rewrite Hr, Ep, E. destruct (stimed (ws w)); destruct r; unfold s_return, set_s; wproj; eauto.
+Qed.
+
+(* a running end has returned — success or error — once its timer event was taken, its goroutine was
+   scheduled once more (the shutdown makes that step its last) and initProtocol saw it finished *)
+Theorem returns_by_timer cfg pre post :
+  (c_running (wc (run cfg pre (init cfg))) = true ->
+   cret (wc (run cfg (pre ++ LTimerC :: LC :: LRetC :: post) (init cfg))) <> None) /\
+  (s_running (ws (run cfg pre (init cfg))) = true ->
+   sret (ws (run cfg (pre ++ LTimerS :: LS :: LRetS :: post) (init cfg))) <> None).
+Proof.
+  split; intros Hr; rewrite run_app; set (w := run cfg pre (init cfg)) in *.
+  - change (LTimerC :: LC :: LRetC :: post) with ([LTimerC; LC; LRetC] ++ post). rewrite run_app.
+    assert (exists r, cret (wc (run cfg [LTimerC; LC; LRetC] w)) = Some r) as [r Hs].
+    { change (run cfg [LTimerC; LC; LRetC] w) with (step cfg (step cfg (step cfg w LTimerC) LC) LRetC).
+      destruct (cret (wc w)) as [r|] eqn:E; [exists r; do 3 apply cret_stable; assumption|].
+      destruct (match cpc (wc w) with CDone _ => true | _ => false end) eqn:Ed.
+      - exists (RErr ETimeout). do 2 apply cret_stable. unfold step. rewrite Hr, E.
+        destruct (cpc (wc w)); try discriminate. reflexivity.
+      - set (w1 := step cfg w LTimerC).
+        assert (H1 : c_running (wc w1) = true /\ ctimed (wc w1) = true /\ cret (wc w1) = None /\ cpc (wc w1) = cpc (wc w)).
+        { unfold w1, step. rewrite Hr, E. destruct (cpc (wc w)); try discriminate; unfold set_c; wproj; auto. }
+        destruct H1 as (R1 & T1 & E1 & P1).
+        destruct (LC_cancelled cfg w1 R1 T1) as (o & r & -> & Ho); [rewrite P1; destruct (cpc (wc w)); try discriminate; exact Logic.I|].
+        apply (LRetC_done cfg (c_apply w1 o) r); unfold c_apply; wproj; auto.
+        }
     rewrite (cret_stable_run _ _ _ _ Hs). discriminate.
-  - assert (exists r, sret (ws (run cfg [LTimerS] w)) = Some r) as [r Hs].
-    { cbn. rewrite Hr. destruct (sret (ws w)) eqn:E; [eauto|]. eexists. unfold s_return. wproj. reflexivity. }
+  - change (LTimerS :: LS :: LRetS :: post) with ([LTimerS; LS; LRetS] ++ post). rewrite run_app.
+    assert (exists r, sret (ws (run cfg [LTimerS; LS; LRetS] w)) = Some r) as [r Hs].
+    { change (run cfg [LTimerS; LS; LRetS] w) with (step cfg (step cfg (step cfg w LTimerS) LS) LRetS).
+      destruct (sret (ws w)) as [r|] eqn:E; [exists r; do 3 apply sret_stable; assumption|].
+      destruct (match spc (ws w) with SDone _ => true | _ => false end) eqn:Ed.
+      - assert (exists r, sret (ws (step cfg w LTimerS)) = Some r) as [r H1].
+        { unfold step. rewrite Hr, E. destruct (spc (ws w)) as [| | |[| |]]; try discriminate; unfold s_return, set_s; wproj; eauto. }
+        exists r. do 2 apply sret_stable. assumption.
+      - set (w1 := step cfg w LTimerS).
+        assert (H1 : s_running (ws w1) = true /\ stimed (ws w1) = true /\ sret (ws w1) = None /\ spc (ws w1) = spc (ws w)).
+        { unfold w1, step. rewrite Hr, E. destruct (spc (ws w)); try discriminate; unfold set_s; wproj; auto. }
+        destruct H1 as (R1 & T1 & E1 & P1).
+        destruct (LS_cancelled cfg w1 R1 T1) as (o & r & -> & Ho); [rewrite P1; destruct (spc (ws w)); try discriminate; exact Logic.I|].
+        apply (LRetS_done cfg (s_apply w1 o) r); unfold s_apply; wproj; auto. }
     rewrite (sret_stable_run _ _ _ _ Hs). discriminate.
 Qed.
 
 (* --- what an error leaves behind --- *)
-Theorem error_releases_mappings cfg sch e : good cfg ->
+(* nothing of the session's own is left behind by an error return: no mapping, no dup'ed descriptor, no
+   initialiser goroutine — for EVERY error, the timeout included (initProtocol waits for the goroutine) *)
+Theorem no_residue cfg sch e : good cfg ->
   let w := run cfg sch (init cfg) in
-  (cret (wc w) = Some (RErr e) -> c_mapped w = []) /\
-  (sret (ws w) = Some (RErr e) -> e <> ETimeout -> s_mapped w = [] /\ spc (ws w) = SDone (RErr e)).
+  (cret (wc w) = Some (RErr e) -> c_mapped w = [] /\ cdup (wc w) = false /\ c_thread_alive w = false) /\
+  (sret (ws w) = Some (RErr e) -> s_mapped w = [] /\ sdup (ws w) = false /\ s_thread_alive w = false).
 Proof.
   intros G w. destruct (inv_reachable cfg sch G) as [W1 W2 W3 W4 Ic Is Ifs Icr Isr]. fold w in W1, W2, W3, W4, Ic, Is, Ifs, Icr, Isr.
   split.
-  - intros H. unfold crinv in Icr. rewrite H in Icr. destruct Icr as [A B]. unfold c_mapped. rewrite A, B. reflexivity.
-  - intros H Hne. unfold srinv in Isr. rewrite H in Isr. destruct Isr as [_ B].
-    destruct e; try congruence; destruct B as (B0 & B1 & B2); unfold s_mapped; rewrite B1, B2; auto.
+  - intros H. unfold crinv in Icr. rewrite H in Icr. destruct Icr as (A & B & C & r & D).
+    unfold c_mapped, c_thread_alive. rewrite A, B, D. auto.
+  - intros H. unfold srinv in Isr. rewrite H in Isr. destruct Isr as (_ & (r & D) & A & B & C).
+    unfold s_mapped, s_thread_alive. rewrite A, B, D. auto.
 Qed.
 
 (* the client's /dev/shm files are gone once its newSession has returned an error *)
@@ -821,21 +914,32 @@ Proof. intros H. destruct (lookup p (remove_path p' f)) eqn:E; [|reflexivity]. a
 Lemma lookup_none_unlink p m f : lookup p f = None -> lookup p (unlink m f) = None.
 Proof. destruct m as [[p' o]|]; cbn; [apply lookup_none_remove|auto]. Qed.
 
+Lemma fs_c_return w r p : lookup p (fs w) = None -> lookup p (fs (c_return w r)) = None.
+Proof. intros H. unfold c_return. destruct r; unfold set_c; wproj; auto using lookup_none_unlink. Qed.
+Lemma fs_s_return w r p : lookup p (fs w) = None -> lookup p (fs (s_return w r)) = None.
+Proof. intros H. unfold s_return. destruct r; unfold set_s; wproj; auto using lookup_none_unlink. Qed.
+
 Lemma fs_shrinks cfg w l p : lookup p (fs w) = None -> lookup p (fs (step cfg w l)) = None.
 Proof.
-  intros H. destruct l; unfold step; wproj;
-    repeat match goal with
-           | |- context [if ?b then _ else _] => destruct b
-           | |- context [match cstep ?a ?b ?c ?d ?e with _ => _ end] => destruct (cstep a b c d e)
-           | |- context [match sstep ?a ?b ?c ?d ?e with _ => _ end] => destruct (sstep a b c d e)
-           end; wproj; auto;
-    try (destruct (cpc (wc w)) as [| | | |[| |]]; auto; destruct (cret (wc w)); auto; unfold c_return, set_c; wproj;
-         auto using lookup_none_unlink);
-    try (destruct (spc (ws w)) as [| | |[| |]]; auto; destruct (sret (ws w)); auto; unfold s_return, set_s; wproj;
-         auto using lookup_none_unlink);
-    try (destruct (cret (wc w)); auto; unfold c_return; wproj; auto using lookup_none_unlink);
-    try (destruct (sret (ws w)); auto; unfold s_return; wproj; auto using lookup_none_unlink);
-    auto using lookup_none_remove.
+  intros H. destruct l; unfold step.
+  - destruct (c_running (wc w)); [|assumption].
+    destruct (cstep cfg (cpc (wc w)) (cver (wc w)) (s2c w) (sopen (ws w) && negb (ctimed (wc w)))); assumption.
+  - destruct (s_running (ws w)); [|assumption].
+    destruct (sstep (fs w) (spc (ws w)) (sver (ws w)) (c2s w) (copen (wc w) && negb (stimed (ws w)))); assumption.
+  - destruct (c_running (wc w)); [|assumption]. destruct (cpc (wc w)); try assumption.
+    destruct (cret (wc w)); [assumption|]. apply fs_c_return. assumption.
+  - destruct (s_running (ws w)); [|assumption]. destruct (spc (ws w)); try assumption.
+    destruct (sret (ws w)); [assumption|]. apply fs_s_return. assumption.
+  - destruct (c_running (wc w)); [|assumption]. destruct (cret (wc w)); [assumption|].
+    destruct (cpc (wc w)); try assumption. apply fs_c_return. assumption.
+  - destruct (s_running (ws w)); [|assumption]. destruct (sret (ws w)); [assumption|].
+    destruct (spc (ws w)) as [| | |[| |]]; try assumption; apply fs_s_return; assumption.
+  - assumption.
+  - assumption.
+  - assumption.
+  - assumption.
+  - wproj. apply lookup_none_remove. assumption.
+  - wproj. apply lookup_none_remove. assumption.
 Qed.
 
 Definition no_files (cfg : config) (w : world) : Prop :=
@@ -866,14 +970,17 @@ Proof.
         try (destruct (c_running (wc w)) eqn:Rn; [|congruence]);
         try (destruct (s_running (ws w)) eqn:Rs; [|congruence]);
         try congruence.
-      * destruct (cstep cfg (cpc (wc w)) (cver (wc w)) (s2c w) (sopen (ws w))); wproj; congruence.
-      * destruct (sstep (fs w) (spc (ws w)) (sver (ws w)) (c2s w) (copen (wc w))); wproj; congruence.
+      * destruct (cstep cfg (cpc (wc w)) (cver (wc w)) (s2c w) (sopen (ws w) && negb (ctimed (wc w)))); wproj; congruence.
+      * destruct (sstep (fs w) (spc (ws w)) (sver (ws w)) (c2s w) (copen (wc w) && negb (stimed (ws w)))); wproj; congruence.
       * destruct (cpc (wc w)) as [| | | |r] eqn:Epc; try congruence. rewrite E in *.
-        apply c_return_err_no_files; auto. intros ->. unfold c_return, set_c in H. wproj. discriminate.
+        apply c_return_err_no_files; auto. destruct (ctimed (wc w)); [discriminate|].
+        intros ->. unfold c_return, set_c in H. wproj. discriminate.
       * destruct (spc (ws w)) as [| | |r]; try congruence. destruct (sret (ws w)); try congruence.
-        unfold s_return, set_s in H. destruct r; wproj; congruence.
-      * rewrite E in *. apply c_return_err_no_files; auto. discriminate.
-      * destruct (sret (ws w)); try congruence. unfold s_return in H. wproj. congruence.
+        rewrite wc_s_return in H. congruence.
+      * rewrite E in *. destruct (cpc (wc w)); try (unfold set_c in H; wproj; congruence).
+        apply c_return_err_no_files; auto. discriminate.
+      * destruct (sret (ws w)); try congruence.
+        destruct (spc (ws w)) as [| | |[| |]]; try (unfold set_s in H; wproj; congruence); rewrite wc_s_return in H; congruence.
       * unfold set_c in H; wproj; congruence.
       * unfold set_s in H; wproj; congruence.
       * unfold set_c in H; wproj; congruence.
@@ -931,31 +1038,15 @@ Proof.
   destruct F as [F _]. specialize (F eq_refl). discriminate.
 Qed.
 
-Definition no_residue_full : Prop :=
-  forall cfg sch e, good cfg ->
-    let w := run cfg sch (init cfg) in
-    (cret (wc w) = Some (RErr e) -> c_mapped w = [] /\ cdup (wc w) = false /\ c_thread_alive w = false) /\
-    (sret (ws w) = Some (RErr e) -> s_mapped w = [] /\ sdup (ws w) = false /\ s_thread_alive w = false).
-(* a peer that stops answering: the timer makes newSession return, but the initialiser goroutine
-   stays blocked in its raw read and the dup'ed descriptor stays open *)
-Definition stalled_peer_witness : list label := [LC; LStallS; LTimerC].
-Lemma no_residue_refuted : ~ no_residue_full.
-Proof.
-  intros F. destruct (F wit_memfd stalled_peer_witness ETimeout wit_memfd_good) as [F1 _].
-  specialize (F1 eq_refl). destruct F1 as (_ & F1 & _). vm_compute in F1. discriminate.
-Qed.
+(* the former counter-examples of "nothing is left behind" (stalled peer; peer answering after the
+   timeout), now on the repaired code: both ends up clean *)
+Definition stalled_peer_witness : list label := [LC; LStallS; LTimerC; LC; LRetC].
 Lemma stalled_peer_state :
   let w := run wit_memfd stalled_peer_witness (init wit_memfd) in
-  cret (wc w) = Some (RErr ETimeout) /\ cdup (wc w) = true /\ c_thread_alive w = true /\ c_mapped w = [].
+  cret (wc w) = Some (RErr ETimeout) /\ cdup (wc w) = false /\ c_thread_alive w = false /\ c_mapped w = [].
 Proof. vm_compute. repeat split. Qed.
-
-Definition no_late_mapping_full : Prop :=
-  forall cfg sch e, good cfg ->
-    let w := run cfg sch (init cfg) in sret (ws w) = Some (RErr e) -> s_mapped w = [].
-(* the goroutine is not cancelled by the timeout: a peer that answers late makes the server map the
-   memory after newSession has already returned the timeout error *)
-Definition late_peer_witness : list label := [LTimerS; LC; LS].
-Lemma no_late_mapping_refuted : ~ no_late_mapping_full.
-Proof.
-  intros F. specialize (F wit_file late_peer_witness ETimeout wit_file_good eq_refl). vm_compute in F. discriminate.
-Qed.
+Definition late_peer_witness : list label := [LTimerS; LC; LS; LRetS; LS].
+Lemma late_peer_state :
+  let w := run wit_file late_peer_witness (init wit_file) in
+  sret (ws w) = Some (RErr ETimeout) /\ s_mapped w = [] /\ sdup (ws w) = false /\ s_thread_alive w = false.
+Proof. vm_compute. repeat split. Qed.
